@@ -9,6 +9,7 @@ judged on an independent content dump of the database, children_bp against summe
 """
 import itertools
 import os
+import re
 from collections import Counter
 
 from gvmon import dbdump
@@ -52,7 +53,18 @@ RULE = ("merge: every multiset of <= 3 (quick) / <= 4 (thorough) of the 36 inter
         "database, the second stage repeated on the same objects; ONE very long run per run (one shard of four): 1000..1100 "
         "features of one seqid / strand / type, each beginning inside its predecessor or on the base after it, plus a short run, "
         "a singleton, features on another strand / seqid / type over the same coordinates and a 'locus' parent named by 80% of "
-        "the features, file order shuffled, through merge_all(exclude_components=True) and (=False). non-trivial = the model has >= 1 multi-member "
+        "the features, file order shuffled, through merge_all(exclude_components=True) and (=False); 'pattern characters': "
+        "databases whose featuretypes (half of them: seqids too) are drawn from CDS[partial], exon*, match?, a%b, x_y, [a-z], "
+        "exon[12], CDS[!p], e.on, ex+on, a|b, x_, (exon), ex{2}, ^exon$ and whose ids have the shape <featuretype>_<n> (explicit "
+        "IDs numbered 1, 2, 3 ... per featuretype, with holes, or from 2 / 3 on; or lines without ID, which gffutils keys that way), "
+        "through merge() (default and random criteria, re-merges) and merge_all(exclude_components=False, with and without one "
+        "featuretype group per type), plus plain ids and a SECOND merge_all in a new session (reopened file / new handle) on the "
+        "database the first one left behind: every id handed out is fresh and distinct, merge_all stores without error; 'non-bool "
+        "criteria': criteria lists (default, random, shaped, 40% with an extra reflexive custom predicate) in which >= 1 criterion - "
+        "shipped or custom - answers 'yes' / 'no' as 'x' / None, 'yes' / '', [0] / [], 1 / 0, 2.5 / 0.0, (0,) / (), a match "
+        "object / None, or True / a missing return, through merge() (objects and database, re-merges), merge_all() (no ties on the "
+        "merge order, or tie-insensitive criteria) and children_bp(merge=True) (children with distinct starts), judged against the "
+        "single-pass model with the answers reduced by bool(). non-trivial = the model has >= 1 multi-member "
         "run and >= 1 singleton (two-stage merges: a multi-member output of the first stage opens a multi-member run of the second); "
         "distinct = distinct (features, criteria, follow-up) tuples")
 REQUIRED = ["merge calls", "outputs mapped to inputs by identity", "multi-member runs compared", "singleton outputs compared",
@@ -133,7 +145,18 @@ REQUIRED = ["merge calls", "outputs mapped to inputs by identity", "multi-member
             "re-merge: multi-member outputs of an earlier merge() that open a multi-member run of the second stage",
             "re-merge: multi-member outputs of an earlier merge() that join a run of the second stage behind its first member",
             "re-merge: inputs of the second stage compared before / after (printed form, id, columns, children list)",
-            "re-merge: the same objects merged once more: partition and extents compared with the previous result"]
+            "re-merge: the same objects merged once more: partition and extents compared with the previous result"] + \
+           ["%s: ids of merged features checked whose featuretype holds LIKE / GLOB / regex characters" % w for w in ("merge()", "merge_all")] + \
+           ["%s: ... while ids of the shape <featuretype>_<n> are stored, featuretype holding %s" % (w, n)
+            for w in ("merge()", "merge_all") for n in ("a bracket expression", "'*'", "'?'", "'%'", "'_'", "other regex characters")] + \
+           ["%s: ... <featuretype>_1 among them (what a counter starting from nothing hands out first)" % w for w in ("merge()", "merge_all")] + \
+           ["second session: database reopened after the first merge_all",
+            "second session: merge_all calls on a database holding the merged features of an earlier session",
+            "second session: new features stored next to the merged features of the earlier session"] + \
+           ["non-bool criteria: %s calls %s" % (w, t) for w in ("merge()", "merge_all()", "children_bp(merge=True)")
+            for t in ("compared with the single-pass model", "in which a falsy answer other than False / 0 decides a run boundary")] + \
+           ["non-bool criteria: ... answered in the style %s" % st for st in G.FALSY_NOT_EQUAL_FALSE] + \
+           ["non-bool criteria: answers given in the style %s: %s" % (st, a) for st in G.NONBOOL_STYLES for a in ("yes", "no")]
 REQUIRED_CLASSES = ["merge/exhaustive uniform default", "merge/exhaustive grouped default", "merge/exhaustive criteria",
                     "merge/random objects", "merge/random db", "merge_all/keep", "merge_all/exclude", "children_bp",
                     "merge/shaped objects", "merge/shaped db", "merge_all/shaped keep", "merge_all/shaped exclude",
@@ -145,7 +168,14 @@ REQUIRED_CLASSES = ["merge/exhaustive uniform default", "merge/exhaustive groupe
                     "merge_all/frames varying inside runs, keep", "merge_all/frames varying inside runs, exclude",
                     "children_bp/frames varying among the children", "merge_all/several groups, exclude_components",
                     "merge/outputs of an earlier merge() as inputs, objects", "merge/outputs of an earlier merge() as inputs, db",
-                    "merge_all/one run of >= 1000 members, exclude", "merge_all/one run of >= 1000 members, keep"]
+                    "merge_all/one run of >= 1000 members, exclude", "merge_all/one run of >= 1000 members, keep",
+                    "merge/pattern characters in featuretypes, ids <featuretype>_<n>",
+                    "merge/pattern characters in featuretypes, ids <featuretype>_<n> (lines without ID)",
+                    "merge_all/pattern characters in featuretypes, ids <featuretype>_<n>",
+                    "merge_all/pattern characters in featuretypes, lines without ID",
+                    "merge_all/pattern characters in featuretypes, second session",
+                    "merge/criteria answering with non-bool values, objects", "merge/criteria answering with non-bool values, db",
+                    "merge_all/criteria answering with non-bool values", "children_bp/criteria answering with non-bool values"]
 ASSUMPTIONS = [
     "the shipped criteria carry no documentation beyond their names; the model re-states them as 'cur begins inside the run "
     "or within `reach` bases after it' / 'cur ends inside the run or within `reach` bases before it', with "
@@ -183,6 +213,13 @@ ASSUMPTIONS = [
     "output - their own children list; one that the later call yields as a run of its own is 'yielded unchanged with no "
     "children', so an emptied children list is accepted there (counted); first stages always hold the seqid criterion (outputs "
     "with comma-joined seqids are not re-merged: statement silent)",
+    "'every merge criterion accepts the pair' = every criterion answers with a true value, as in all(): None (a missing return, "
+    "re.match), '', [], (), 0 and 0.0 reject, 'x', 1, [0], (0,), 2.5 and a match object accept",
+    "'fresh distinct ids' holds whatever characters featuretypes, seqids and stored ids contain; featuretypes with %XX sequences "
+    "or backslashes are not generated (attribute quoting is C01 / C02's domain); with ids of the shape <featuretype>_<n> in the "
+    "file merge_all is called with exclude_components=False only (whether the id of a member deleted earlier in the same call "
+    "may be handed out again is not stated); a second session's merge_all sees the first session's merged features as features "
+    "like any other (tie-insensitive criteria, since a merged feature ties with its first member on the merge order)",
     "delete() itself is not called by this check (C10 judges it); a run of >= 1000 members reaches it through "
     "merge_all(exclude_components=True) only",
 ]
@@ -274,6 +311,10 @@ def real_criteria(ctx, desc):
 
     out = []
     for c in desc:
+        if not isinstance(c, str) and c[0] == "as":
+            ctx.mon("criterion used: %s answering in the style %s" % (M.label(c), c[1]))
+            out.append(answering_as(ctx, real_criteria(ctx, [c[2]])[0], c[1]))
+            continue
         ctx.mon("criterion used: %s" % (c if isinstance(c, str) else c[0] if c[0] != "custom" else "custom " + c[1]))
         if isinstance(c, str):
             out.append(getattr(mc, c))
@@ -294,6 +335,51 @@ def real_criteria(ctx, desc):
         else:
             out.append(getattr(mc, c[0])(c[1]))
     return out
+
+
+_MATCH = re.compile("y")
+# style -> (how 'yes' is answered, how 'no' is answered); "match" and "noreturn" are built in answering_as
+NONBOOL_VALUES = {"none_str": ("x", None), "empty_str": ("yes", ""), "empty_list": ([0], []), "zero_one": (1, 0),
+                  "zero_float": (2.5, 0.0), "empty_tuple": ((0,), ())}
+
+
+def answering_as(ctx, fn, style):
+    """The criterion fn, answering 'yes' with a truthy value that is not True and 'no' with a falsy value that is not False."""
+    def crit(acc, cur, components):
+        yes = bool(fn(acc, cur, components))
+        ctx.mon("non-bool criteria: answers given in the style %s: %s" % (style, "yes" if yes else "no"))
+        if style == "match":
+            return _MATCH.match("y" if yes else "n")          # a match object, or None
+        if style == "noreturn":
+            if yes:
+                return True
+            return                                              # a callback that forgets to return False
+        v = NONBOOL_VALUES[style][0 if yes else 1]
+        return list(v) if isinstance(v, list) else v
+    return crit
+
+
+def falsy_decides(model_in, desc):
+    """Do the runs differ from those without the criteria that say 'no' with None / '' / [] / ()?"""
+    rest = [c for c in desc if not (not isinstance(c, str) and c[0] == "as" and c[1] in G.FALSY_NOT_EQUAL_FALSE)]
+    return len(rest) < len(desc) and M.single_pass(model_in, desc) != M.single_pass(model_in, rest)
+
+
+def nonbool_evidence(ctx, model_in, desc, where):
+    """Evidence counters (the comparison is made elsewhere): does a falsy answer that does not compare equal to False
+    (None, '', [], ()) decide a run boundary, i.e. do the runs differ from those without the criteria answering that way?"""
+    wrapped = [c for c in desc if not isinstance(c, str) and c[0] == "as"]
+    if not wrapped:
+        return False
+    ctx.mon("non-bool criteria: %s calls compared with the single-pass model" % where)
+    rest = [c for c in desc if not (not isinstance(c, str) and c[0] == "as" and c[1] in G.FALSY_NOT_EQUAL_FALSE)]
+    if M.single_pass(model_in, desc) != M.single_pass(model_in, rest):
+        ctx.mon("non-bool criteria: %s calls in which a falsy answer other than False / 0 decides a run boundary" % where)
+        for c in wrapped:
+            if c[1] in G.FALSY_NOT_EQUAL_FALSE and M.single_pass(model_in, desc) != M.single_pass(model_in, [x for x in desc if x is not c]):
+                ctx.mon("non-bool criteria: ... answered in the style %s" % c[1])
+        return True
+    return False
 
 
 def in_form(ctx, where, crits, form):
@@ -427,6 +513,7 @@ def one_merge(ctx, case, db, feats, model_in, desc, step, issued, dbids):
     exp_runs = M.single_pass(model_in, desc)
     if sorted(sorted(r) for r in got_runs) != sorted(sorted(r) for r in exp_runs):
         return bad("run boundaries differ from the criteria model", got=got_runs, expected=exp_runs)
+    nonbool_evidence(ctx, model_in, desc, "merge()")
     for o, members in merged:
         s, e = M.extent(model_in, members)
         if (o.start, o.end) != (s, e):
@@ -475,6 +562,7 @@ def one_merge(ctx, case, db, feats, model_in, desc, step, issued, dbids):
         if o.id in issued:
             return bad("the id of a merged output is not distinct from the ids of other merged outputs", id=o.id)
         issued.add(o.id)
+        special_id_evidence(ctx, "merge()", str(o.featuretype), dbids)
     if len(merged) >= 2:
         ctx.mon("calls yielding >= 2 merged outputs")
     rejected_evidence(ctx, model_in, desc)
@@ -485,6 +573,25 @@ def one_merge(ctx, case, db, feats, model_in, desc, step, issued, dbids):
         if got_ext != [tuple(x) for x in exp_ext]:
             return bad("extents differ from the position-set union per (seqid, strand, type)", got=got_ext, expected=exp_ext)
     return out
+
+
+PATTERN_CHARS = {"[": "a bracket expression", "*": "'*'", "?": "'?'", "%": "'%'", "_": "'_'"}
+
+
+def special_id_evidence(ctx, where, featuretype, dbids):
+    """Evidence counters of the id comparison just made: featuretypes holding pattern characters, with stored ids of the
+    shape <featuretype>_<n> that an id counter starting from nothing would hand out again."""
+    hit = [n for ch, n in PATTERN_CHARS.items() if ch in featuretype]
+    if not hit and not any(ch in featuretype for ch in ".+|(){}^$"):
+        return
+    taken = sum(1 for i in dbids if i.startswith(featuretype + "_") and i[len(featuretype) + 1:].isdigit())
+    ctx.mon("%s: ids of merged features checked whose featuretype holds LIKE / GLOB / regex characters" % where)
+    if taken:
+        ctx.mon("%s: ... while ids of the shape <featuretype>_<n> are stored" % where)
+        for n in hit or ["other regex characters"]:
+            ctx.mon("%s: ... while ids of the shape <featuretype>_<n> are stored, featuretype holding %s" % (where, n))
+        if featuretype + "_1" in dbids:
+            ctx.mon("%s: ... <featuretype>_1 among them (what a counter starting from nothing hands out first)" % where)
 
 
 def report_pattern(ctx, case, fid, detail):
@@ -641,7 +748,23 @@ def execute_merge_all(ctx, case):
             if ids is None:
                 ctx.violation(case, {"why": "harness: the stored features cannot be matched with the generated rows"})
                 return
-        judge_merge_all(ctx, case, db, rows, ids, desc, exclude, groups, form)
+        ext = judge_merge_all(ctx, case, db, rows, ids, desc, exclude, groups, form)
+        if ext is not None and case.get("sessions", 1) > 1:
+            # a second session on the database the first merge_all left behind: the merged features stored by the first
+            # session are features like any other (their ids, <featuretype>_<n>, are taken), members and new features merge again
+            if dbfn != ":memory:":
+                db.conn.close()
+                db = gffutils.FeatureDB(dbfn)
+                ctx.mon("second session: database reopened after the first merge_all")
+            else:
+                db = gffutils.FeatureDB(db.conn)
+            now = dbdump.dump_db(db)
+            rows2 = [[f["seqid"], f["strand"], f["featuretype"], f["start"], f["end"]] for f in now["features"]]
+            ids2 = [f["id"] for f in now["features"]]
+            ctx.mon("second session: merge_all calls on a database holding the merged features of an earlier session")
+            ext2 = judge_merge_all(ctx, case, db, rows2, ids2, desc, exclude, groups, form)
+            if ext2 is not None and ext2:
+                ctx.mon("second session: new features stored next to the merged features of the earlier session", len(ext2))
     finally:
         close_db(db, dbfn)
 
@@ -707,6 +830,11 @@ def judge_merge_all(ctx, case, db, rows, ids, desc, exclude, groups, form):
         if len(new) != len(multi):
             return bad("number of new features differs from the number of multi-member runs", new=new)
         ctx.mon("merge_all: new features compared", len(new))
+        for i in new:
+            special_id_evidence(ctx, "merge_all", str(af[i]["featuretype"]), set(bf))
+        for gi, grp in enumerate(groups or [None]):
+            sel = sorted((i for i, r in enumerate(rows) if grp is None or r[2] in grp), key=lambda i: (rows[i][0], rows[i][2], rows[i][1], rows[i][3]))
+            nonbool_evidence(ctx, [model_row(rows[i]) for i in sel], desc, "merge_all()")
         if sorted(f.id for f in res) != sorted(new):
             return bad("returned features are not the stored new features", returned=[f.id for f in res], new=new)
         for i, f in bf.items():
@@ -971,13 +1099,14 @@ def execute_children_bp(ctx, case):
     import gffutils
 
     rows, ids, parents = case["feats"], case["ids"], case["parents"]
+    info = {}
     dbfn = ctx.tmp(".db") if case.get("dbfile") else ":memory:"
     try:
         db = gffutils.create_db(G.gff3(rows, ids, parents, same_source=bool(case.get("dup")), frames=case.get("frames")), dbfn,
                                 from_string=True, **create_kwargs(case))
     except Exception as ex:
         ctx.violation(case, {"why": "harness: building the input database raised %r" % (ex,)})
-        return
+        return info
     try:
         # keys of the generated hierarchy: the id where a line has one of its own, else the position of the line
         keys = [i if i is not None and ids.count(i) == 1 else "#%d" % n for n, i in enumerate(ids)]
@@ -1027,6 +1156,8 @@ def execute_children_bp(ctx, case):
             if several:
                 ctx.mon("children_bp calls with a child related to the queried feature at several levels: merge=%s" % bool(call["merge"]))
             crit = M.DEFAULT if desc is None else desc
+            if call["merge"] and nonbool_evidence(ctx, kids, crit, "children_bp(merge=True)"):
+                info["decisive"] = info.get("decisive", 0) + 1
             if not call["merge"]:
                 exp = M.total_length(kids)
                 what = "summed child lengths"
@@ -1057,6 +1188,7 @@ def execute_children_bp(ctx, case):
             ctx.violation(case, {"why": "write statement on the database connection during children_bp", "statements": stmts[:3]})
     finally:
         close_db(db, dbfn)
+    return info
 
 
 # -- no criterion at all: merge(), children_bp(merge=True) and merge_all() on one database ----------------------------------------
@@ -1422,6 +1554,87 @@ def gen_merge_all_groups_exclude(rng, k):
     return case
 
 
+def gen_special_merge(rng, k):
+    """merge() over features read from a database whose featuretypes (seqids) hold LIKE / GLOB / regex characters and whose
+    ids have the shape <featuretype>_<n> (explicit IDs, or lines without ID that gffutils keys that way)."""
+    rows = G.random_feats(rng, nmax=8) if rng.random() < 0.7 else G.shaped_feats(rng, nmax=6)
+    rows, _ = G.specialise(rng, rows)
+    desc = list(M.DEFAULT) if rng.random() < 0.6 else G.criteria(rng)
+    if is_default(desc) and rng.random() < 0.6:
+        rows = G.group_then_start(rows)
+    case = {"kind": "merge", "source": "db", "feats": rows, "criteria": desc, "again": rng.random() < 0.3, "second": G.criteria(rng),
+            "dbfile": rng.random() < 0.15, "form": G.criteria_form(rng, desc), "special": True}
+    if k % 4 == 3:
+        case.update(ids=[None] * len(rows), dup=True)
+    else:
+        case["ids"] = G.shaped_ids(rng, rows)
+    return case
+
+
+def gen_special_merge_all(rng, k):
+    """merge_all on such a database: explicit ids <featuretype>_<n>, lines without ID, or plain ids and a SECOND session on the
+    database the first merge_all left behind (its merged features hold <featuretype>_1 ...).  Members are kept (with
+    exclude_components an id of a member deleted earlier in the same call might be handed out again: not stated)."""
+    rows = G.random_feats(rng, nmax=10) if rng.random() < 0.6 else G.grouped_db_feats(rng)
+    rows, tmap = G.specialise(rng, rows)
+    rng.shuffle(rows)
+    desc = list(M.DEFAULT) if rng.random() < 0.6 else G.tie_insensitive_criteria(rng)
+    groups = None
+    if rng.random() < 0.25:
+        groups = [[t] for t in sorted(tmap.values())]
+        rng.shuffle(groups)
+    mode = ("shaped", "shaped", "sessions", "idless")[k % 4]
+    case = {"kind": "merge_all", "feats": rows, "parents": [[] for _ in rows], "criteria": desc, "exclude_components": False,
+            "groups": groups, "form": G.criteria_form(rng, desc, one_shot=not groups or len(groups) < 2), "special": mode}
+    if mode == "shaped":
+        case.update(ids=G.shaped_ids(rng, rows), dbfile=rng.random() < 0.15)
+    elif mode == "idless":
+        case.update(ids=[None] * len(rows), dup=True, dbfile=rng.random() < 0.15)
+    else:
+        if case["form"] in G.ONE_SHOT_FORMS:
+            case["form"] = "list"
+        case.update(ids=G.ids_for(rng, rows), sessions=2, dbfile=rng.random() < 0.6)
+    return case
+
+
+def gen_nonbool_merge_all(rng):
+    if rng.random() < 0.6:
+        rows, desc = G.shaped_db_feats(rng), G.nonbool_criteria(rng)        # no ties on the merge order: any criterion
+    else:
+        rows, desc = G.random_feats(rng, nmax=10), G.nonbool_criteria(rng, tie_free=True)
+        rng.shuffle(rows)
+    groups = None
+    if rng.random() < 0.2:
+        groups = rng.choice([[["exon"], ["CDS", "gene"]], [["CDS"]], [["exon", "CDS", "gene"]]])
+    forms = ["list", "tuple", "set"] + (["callable"] * 2 if len(desc) == 1 else [])
+    return {"kind": "merge_all", "feats": rows, "ids": G.ids_for(rng, rows), "parents": [[] for _ in rows], "criteria": desc,
+            "form": rng.choice(forms), "exclude_components": rng.random() < 0.5, "groups": groups, "dbfile": rng.random() < 0.15}
+
+
+def gen_nonbool_children_bp(rng):
+    """A gene / transcripts whose exon / CDS children (distinct starts, one strand) are merged by children_bp(merge=True)
+    under criteria answering with non-bool values."""
+    seqid, strand = rng.choice(G.SEQIDS), rng.choice(G.STRANDS)
+    nt = rng.choice([1, 2])
+    rows, ids, parents = [[seqid, strand, "gene", 1, 200]], ["G"], [[]]
+    for t in range(nt):
+        rows.append([seqid, strand, "mRNA", 1, 200])
+        ids.append("T%d" % t)
+        parents.append(["G"])
+    for j, (s, e) in enumerate(G.random_intervals(rng, rng.randrange(2, 10), span=rng.choice([12, 30, 60]), distinct_starts=True)):
+        rows.append([seqid, strand, rng.choice(["exon", "exon", "exon", "CDS"]), s, e])
+        ids.append("x%d" % j)
+        parents.append(rng.choice([["T%d" % rng.randrange(nt)], ["G"], ["T0", "G"]]))
+    calls = []
+    for target in ["G"] + ["T%d" % t for t in range(nt)]:
+        for ctype in ("exon", "CDS"):
+            for _ in range(2):
+                desc = G.nonbool_criteria(rng)
+                calls.append({"of": target, "child_featuretype": ctype, "merge": True, "by": rng.choice(["id", "feature"]),
+                              "criteria": desc, "form": G.criteria_form(rng, desc)})
+    return {"kind": "children_bp", "feats": rows, "ids": ids, "parents": parents, "calls": calls, "dbfile": rng.random() < 0.15}
+
+
 def run(ctx):
     rng = ctx.rng
     kmax = 3 if ctx.tier == "quick" else 4
@@ -1580,6 +1793,45 @@ def run(ctx):
         useful = execute(ctx, case)
         ctx.case((case["feats"], first, second, new, case["source"]), bool(useful), sample=case if len(rows) <= 4 else None,
                  cls="merge/outputs of an earlier merge() as inputs, " + case["source"])
+    # 12. featuretypes / seqids holding LIKE / GLOB / regex characters, stored ids of the shape <featuretype>_<n>
+    for k in range(ctx.budget(450, 20000)):
+        case = gen_special_merge(rng, k)
+        execute(ctx, case)
+        ctx.case((case["feats"], case["ids"], case["criteria"], case.get("second")), any(len(r) > 1 for r in M.single_pass(
+                 [model_row(r) for r in case["feats"]], case["criteria"])), sample=case if len(case["feats"]) == 3 else None,
+                 cls="merge/pattern characters in featuretypes, ids <featuretype>_<n>" + (" (lines without ID)" if case.get("dup") else ""))
+    for k in range(ctx.budget(400, 16000)):
+        case = gen_special_merge_all(rng, k)
+        execute(ctx, case)
+        ctx.case((case["feats"], case["ids"], case["criteria"], case["groups"], case["special"]),
+                 any(len(r) > 1 for r in M.single_pass([model_row(r) for r in sorted(case["feats"], key=lambda r: (r[0], r[2], r[1], r[3]))],
+                                                       case["criteria"])),
+                 cls="merge_all/pattern characters in featuretypes, " + {"shaped": "ids <featuretype>_<n>", "idless": "lines without ID",
+                                                                         "sessions": "second session"}[case["special"]])
+    # 13. criteria answering with truthy / falsy values that are not True / False
+    for _ in range(ctx.budget(1200, 48000)):
+        rows = G.random_feats(rng) if rng.random() < 0.7 else G.shaped_feats(rng)
+        desc = G.nonbool_criteria(rng)
+        case = {"kind": "merge", "feats": rows, "criteria": desc, "again": rng.random() < 0.3, "second": G.nonbool(rng, G.criteria(rng)),
+                "form": G.criteria_form(rng, desc)}
+        if rng.random() < 0.75:
+            case["source"] = "objects"
+        else:
+            case.update(source="db", ids=G.ids_for(rng, rows), dbfile=rng.random() < 0.15)
+        execute(ctx, case)
+        ctx.case((case["feats"], desc, case.get("second"), case["source"]), falsy_decides([model_row(r) for r in rows], desc),
+                 sample=case if len(rows) == 3 else None, cls="merge/criteria answering with non-bool values, " + case["source"])
+    for _ in range(ctx.budget(300, 12000)):
+        case = gen_nonbool_merge_all(rng)
+        execute(ctx, case)
+        ctx.case((case["feats"], case["criteria"], case["exclude_components"], case["groups"], case["form"]),
+                 falsy_decides([model_row(r) for r in sorted(case["feats"], key=lambda r: (r[0], r[2], r[1], r[3]))], case["criteria"]),
+                 cls="merge_all/criteria answering with non-bool values")
+    for _ in range(ctx.budget(120, 5000)):
+        case = gen_nonbool_children_bp(rng)
+        info = execute(ctx, case)
+        ctx.case((case["feats"], case["parents"], case["calls"]), bool(info and info.get("decisive")),
+                 cls="children_bp/criteria answering with non-bool values")
     # 11. ONE very long run (>= 1000 chained members) through merge_all, with and without exclude_components: one shard of four
     if ctx.shard % 4 == 1:
         for exclude in (True, False):
@@ -1621,7 +1873,12 @@ MANIFEST = {
             "- not mutated (printed form, id, columns, children list), every merged output a new object with a new id, partition and "
             "extents as the model says, the same result when the same objects are merged once more; and one run of 1000..1100 "
             "chained members through merge_all with and without exclude_components (every member, the 998th, 999th, 1000th ... "
-            "included, deleted together with its relation rows / related to the new feature). "
+            "included, deleted together with its relation rows / related to the new feature); featuretypes and seqids holding "
+            "LIKE / GLOB / regex characters (CDS[partial], exon*, match?, a%b, x_y, ...) with stored ids of the shape "
+            "<featuretype>_<n> (explicit, id-less lines, or stored by an earlier session's merge_all): every id merge() / "
+            "merge_all() hands out is new and distinct and merge_all stores its features; criteria that answer with truthy / "
+            "falsy values other than True / False (None, '', [], (), 0, match objects, 'x', 1) through merge(), merge_all() and "
+            "children_bp(merge=True): a falsy answer rejects the pair, as in all(). "
             "Held = no executed case disagreed.",
     "note": "Trusted: gvmon/models/c16_merge.py (its reading of the undocumented criteria names), create_db. Not asserted: "
             "bin / attributes / source / seqid / strand / type of in-memory merged outputs under non-default criteria, the frame a "
